@@ -40,7 +40,7 @@ def gen_case(rng, idx):
     a, b = ids[0], ids[1]
     rows = [r for r in rows if r[0] != b] + [(b, d, v) for (g, d, v) in rows if g == a]
   rng.shuffle(rows)
-  mode = rng.choice(['none', 'equal', 'subset', 'superset-ok', 'superset-bad'])
+  mode = rng.choice(['none', 'equal', 'subset', 'superset-ok', 'superset-bad', 'mixed-ok', 'mixed-bad'])
   elig = None
   in_data = sorted({r[0] for r in rows})
   if mode != 'none':
@@ -48,6 +48,14 @@ def gen_case(rng, idx):
     if mode == 'subset' and len(elig) > 1:
       for g in rng.sample(in_data, rng.randint(1, len(in_data) - 1)):
         del elig[g]
+    if mode in ('mixed-ok', 'mixed-bad') and len(elig) > 1:
+      # neither a subset nor a superset: some geos of the data are missing from the table, foreign geos are listed,
+      # and the table is not longer than the data (same length when exactly as many are added as dropped)
+      drop = rng.sample(in_data, rng.randint(1, len(in_data) - 1))
+      for g in drop:
+        del elig[g]
+      for k in range(rng.randint(1, len(drop))):
+        elig[90 + (idx + k) % 7] = rng.choice(['x', 'cx', 'tx', 'ctx'] if mode == 'mixed-ok' else ['c', 't', 'ct'])
     if mode == 'superset-ok':
       elig[90 + idx % 5] = rng.choice(['x', 'cx', 'tx', 'ctx'])
     if mode == 'superset-bad':
@@ -280,7 +288,7 @@ def run(tier):
                   {'case': cases[bad[0][0]], 'component': bad[0][1]})
   ck.cov['rule'] = ('long frames of 1-7 geos x 3-12 dates with ~12% missing cells, duplicate (geo, date) rows (1, 2 or 4 copies), an '
                     'exact tie in the mean in 8% of the frames, shuffled rows, integer or string IDs, an extra column; eligibility '
-                    'table absent / equal to / subset of / superset of the data (superset with excludable or with required geos); '
+                    'table absent / equal to / subset of / superset of / overlapping with the data (foreign geos excludable or required); '
                     'four random geo indices (possibly with unassignable geos; in every other case one caller-owned list edited in place and assigned again) x random position sets. non-trivial: >= 2 geos')
   ck.cov['distribution'] = dist
   ck.cov['correspondence'] = {'frames_model_vs_impl': len(terms), 'disagreements': len(bad)}
